@@ -1,7 +1,83 @@
-(* C34/Properties.v *)
+(* C34/Properties.v — property C34: the transaction queue is ordered and linearizable.
+   Only statements, each closed by `exact <lemma>`, with Print Assumptions beneath. *)
 From Coq Require Import List NArith Bool.
 From Common Require Import Lock.
-From C34 Require Import Model Gen Checker Proofs.
+From Conc Require Import Lin LockedObject.
+From C34 Require Import Model ModelConc Gen Checker Proofs ProofsHeap ProofsConc ProofsTop.
+Import ListNotations.
+Local Open Scope N_scope.
 
+(* ---- obligations tied to the Go source by the translator (Gen.v is regenerated on every run):
+   every method of PriorityQueue takes the mutex first and releases it by defer, except the
+   composite PopWithTimer, which only calls Pop; all eight methods are in the table *)
 Example C34_discipline_ok : forallb entry_ok pq_locks = true.
 Proof. reflexivity. Qed.
+Example C34_methods_listed : pq_methods_listed = true.
+Proof. reflexivity. Qed.
+Example C34_modes_exclusive : forall o, pq_mode o = LockExclusive.
+Proof. destruct o; reflexivity. Qed.
+
+(* ---- sequential behaviour: for every sequence of operations the Tier A model (the array of
+   container/heap with sift-up/sift-down, Item.index, the txs map) returns what the queue
+   specification returns: Pop/Peek yield the first-inserted transaction of maximal priority,
+   a transaction is yielded or removed at most once (it leaves the queue), duplicates are
+   refused.  Results are equal, except that Pending lists are compared as sets. *)
+Theorem C34_seq_refines : forall ops : list op,
+  Forall2 (fun a b => res_sim a b = true) (m_run m_new ops) (q_run [] ops).
+Proof. exact m_run_q_run. Qed.
+Print Assumptions C34_seq_refines.
+
+(* the specification itself: the transaction Pop/Peek select has strictly higher priority than
+   everything inserted before it and at least the priority of everything inserted after it *)
+Theorem C34_spec_order : forall (q : qspec) i p, qbest q = Some (i, p) ->
+  exists l1 l2, q = l1 ++ (i, p) :: l2 /\
+                (forall j x, In (j, x) l1 -> x < p) /\ (forall j x, In (j, x) l2 -> x <= p).
+Proof. exact qbest_spec. Qed.
+Print Assumptions C34_spec_order.
+
+(* ---- concurrency: with the lock modes read from the source, every complete interleaved
+   history of any number of threads (method bodies interleaved statement by statement) is
+   linearizable w.r.t. the queue specification, and the final heap represents the queue reached
+   by that linearization. *)
+Theorem C34_linearizable :
+  forall (P : nat -> list op) (c : cfg pq loc op res),
+    reach pq loc op res q_init q_fin q_mstep pq_mode (init_cfg pq loc op res m_new P) c ->
+    quiescent pq loc op res c ->
+    exists l q, linearization q_spec_sim [] (done pq loc op res c) l q /\ R (shared pq loc op res c) q.
+Proof. exact (pq_linearizable_qspec pq_mode C34_modes_exclusive). Qed.
+Print Assumptions C34_linearizable.
+
+(* no reachable configuration has two threads inside method bodies (race freedom at the level
+   of the lock discipline abstraction) *)
+Theorem C34_no_two_in_bodies :
+  forall P c, reach pq loc op res q_init q_fin q_mstep pq_mode (init_cfg pq loc op res m_new P) c ->
+  forall t1 t2 f g, t1 <> t2 -> at_loc c t1 f = true -> at_loc c t2 g = true -> False.
+Proof. exact (exclusive_no_two_running pq_mode C34_modes_exclusive). Qed.
+Print Assumptions C34_no_two_in_bodies.
+
+(* ---- the checker run on recorded histories of the real queue *)
+Theorem C34_lin_check_sound : forall bud h,
+  pq_lin bud h = Some true -> linearizable (fspec qspec op res q_step) [] h.
+Proof. intros bud h. apply lin_check_m_true. exact res_eqb_spec. Qed.
+Print Assumptions C34_lin_check_sound.
+
+Theorem C34_lin_check_complete : forall bud h,
+  pq_lin_complete bud h = Some false -> ~ linearizable (fspec qspec op res q_step) [] h.
+Proof. intros bud h. apply lin_check_b_false. exact res_eqb_spec. Qed.
+Print Assumptions C34_lin_check_complete.
+
+(* ---- the pinned source before the fix: Exists took no lock.  A reachable configuration has
+   one thread about to write the txs map (inside Push, holding the mutex) while another is
+   about to read it (inside Exists): the data race `go test -race` reports. *)
+Theorem C34_exists_unlocked_refuted :
+  exists c : cfg pq loc op res,
+    reach pq loc op res q_init q_fin q_mstep prefix_mode (init_cfg pq loc op res m_new push_and_exists) c /\
+    at_loc c 0 writes_map = true /\ at_loc c 1 reads_map = true.
+Proof. exists race_cfg. exact exists_races_with_push. Qed.
+Print Assumptions C34_exists_unlocked_refuted.
+
+(* non-vacuity: priority first, FIFO among equals, duplicates refused, removal *)
+Example C34_nonvacuous :
+  q_run [] [Push 1 5; Push 2 5; Push 3 9; Push 2 7; Remove 1; Push 4 5; Pop; Pop; Pop; Pop]
+  = [ROk; ROk; ROk; RDup; RUnit; ROk; RTx 3 9; RTx 2 5; RTx 4 5; RNone].
+Proof. vm_compute. reflexivity. Qed.
